@@ -39,6 +39,9 @@ TARGET_OPTS = [
     ('count', 'count(*) AS n', ['n'], {0: 'n'}, True),
     ('aggs', 'sum(t1.x) AS s, min(t1.a) AS m, count(t1.a) AS c, count(DISTINCT t1.a) AS d', ['s', 'm'], {0: 's', 1: 'm', 2: 'c', 3: 'd'}, True),
     ('const', "1 AS one, 'txt' AS t, NULL AS nn, t1.id", ['id', 'one'], {0: 'one', 1: 't', 2: 'nn'}, False),
+    # string constants with characters that some target's literal syntax treats specially (the value must come back unchanged)
+    ('const_specials', "'a\\b' AS s1, 'it''s' AS s2, '50%' AS s3, 'x:y' AS s4, 'a\"b' AS s5, '' AS s6, t1.id", ['id', 's1'], {0: 's1', 1: 's2', 2: 's3', 3: 's4', 4: 's5', 5: 's6'}, False),
+    ('const_numbers', "1.5 AS f, -2 AS n, 0.25 + t1.id AS g, 10000000000 AS big, t1.id", ['id', 'f'], {0: 'f', 1: 'n', 2: 'g', 3: 'big'}, False),
 ]
 
 JOIN_OPTS = [
@@ -167,7 +170,8 @@ SET_OPTS = [
 INSERT_COLS = [('all', ['id', 'a', 'x']), ('perm', ['x', 'id', 'a']), ('two', ['a', 'id']), ('one', ['id'])]
 INSERT_VALS = [('ints', ['9', '1', '2']), ('nulls', ['NULL', 'NULL', 'NULL']), ('neg', ['-9', '-1', '- 2']), ('strs', ["'9'", "'it''s'", "''"]),
                ('floats', ['9.0', '1.5', '0.25']), ('bools', ['9', 'TRUE', 'FALSE']), ('arith', ['9 + 1', '2 * 3 + 1', '2 * (3 + 1)']),
-               ('minus_paren', ['9', '5 - (2 - 1)', '5 - 2 - 1']), ('mixed', ['10', "'1'", '1.0'])]
+               ('minus_paren', ['9', '5 - (2 - 1)', '5 - 2 - 1']), ('mixed', ['10', "'1'", '1.0']),
+               ('specials', ['11', "'a\\b'", "'50% x:y \"q\"'"])]
 INSERT_ROWS = [('one', 1), ('two_rows', 2), ('three_rows', 3)]
 
 
